@@ -40,7 +40,15 @@ def run(ctx):
     jobs.append(dict(module="MC_C01kdf", name="MC_C01kdf_refine", view="View", workers=2, timeout=900,
                      constants=dict(Seed=ctx.seed, ZLens=S([0, 1, 59, 60, 63, 64]), KLens=S([33]), OutFile=core.tla_str(os.path.join(ctx.scratch, "c01krefine.ndjson"))),
                      invariants=("PrefixOK", "StreamIsKdf")))
+    # implementation-shaped lane-template model (integers only): holds under the fixed sizing rule ...
+    jobs.append(dict(module="KdfLanes", name="KdfLanes_new", constants=dict(Rule='"new"'), invariants=("TemplateExact", "CounterInside"), workers=1, timeout=300))
     ctx.tlc_many(jobs, parallel=5)
+    # ... and TLC must refute it under the pre-fix rule (documents D1; a model that cannot fail proves nothing)
+    old = ctx.tlc("KdfLanes", dict(Rule='"old"'), invariants=("TemplateExact", "CounterInside"), workers=1, timeout=300, name="KdfLanes_old", allow_fail=True)
+    ctx.tlc_runs.remove(old)
+    if old["ok"] or "TemplateExact is violated" not in old["out_tail"]:
+        raise core.Infra("KdfLanes: the pre-fix sizing rule was not refuted by TLC")
+    ctx.extra["kdf_lanes_old_rule_refuted"] = True
     core.cat_files(outs_h, out_h)
     core.cat_files(outs_k, out_k)
     allt = core.cat_files([out_h, out_k], os.path.join(ctx.scratch, "c01.ndjson"))
@@ -49,7 +57,7 @@ def run(ctx):
     ctx.binding_guard(out_k, cfgs.K_SM3[0])
     # code -> spec: recorded random histories on real objects, validated by TLC against HashObj
     nrec = 120 if ctx.tier == "quick" else 1500
-    for c in (cfgs.K_SM3[0], cfgs.K_SM3[2], cfgs.K_SM3[3]):
+    for c in (cfgs.K_SM3[0], cfgs.K_SM3[2], cfgs.K_SM3[3], cfgs.K_SM3[4]):
         ev = ctx.record("sm3hash", nrec, tags=c["tags"], env=c["env"], name="sm3hash-" + c["label"])
         ctx.validate("Trace_Hash", ev, "sm3hash", shards=4 if ctx.tier == "quick" else 5, label=c["label"], guard=(c is cfgs.K_SM3[0]))
     ctx.sample_traces(out_h)
@@ -63,4 +71,4 @@ def run(ctx):
     ctx.count_distinct(allt, key)
     ctx.assumptions += ["messages up to ~400 bytes (hash histories) / 1025 bytes (one-shot); bit-length carries beyond 2^32 are not explored",
                         "chunk contents are pseudo-random; chunk lengths, operation sequences, (len z, keyLen) pairs are enumerated"]
-    return ctx.finish(rule="one case per TLC transition: hash histories over Write/Sum/Reset/Marshal/Unmarshal with seam lengths on two objects, one-shot lengths, (len z, keyLen, entry point) KDF requests; each replayed on 4 SM3 tiers; distinct = distinct operation/length tuples")
+    return ctx.finish(rule="one case per TLC transition: hash histories over Write/Sum/Reset/Marshal/Unmarshal with seam lengths on two objects, one-shot lengths, (len z, keyLen, entry point) KDF requests; each replayed on 5 SM3 tiers; distinct = distinct operation/length tuples")
